@@ -19,14 +19,19 @@ import numba as nb
 
 @nb.njit(cache=True)
 def arr_comb(n, k):
-    n = np.where((n < 0) | (n < k), 0, n)
+    invalid = (n < 0) | (n < k)
+    n = np.where(invalid, 0, n)
     prod = np.ones(n.shape, dtype=np.int64)
 
-    for i in range(k):
-        prod *= n - i
-        prod = prod // (i + 1)
+    # NOTE: Using the symmetry of the binomial coefficient keeps the intermediate
+    # products bounded by the result times `n`, otherwise `prod` may overflow even
+    # when the result itself is small (e.g. `n = 67`, `k = 66`).
+    symmetric_k = np.minimum(k, n - k)
 
-    return prod
+    for i in range(k):
+        prod = np.where(i < symmetric_k, prod * (n - i) // (i + 1), prod)
+
+    return np.where(invalid, 0, prod)
 
 
 @nb.njit(cache=True)
